@@ -176,7 +176,7 @@ def _validate_chunk(prop, cfg, lines, v, drv, classify, max_fail, timeout, modul
     return {"states": total_states, "transitions": total_trans, "stats": stats}
 
 
-def validate(prop, cfg, lines, v, drv, classify=None, max_fail=6, timeout=7200, module="SnapTrace", max_known=40, require_repro=True):
+def validate(prop, cfg, lines, v, drv, classify=None, max_fail=6, timeout=7200, module="SnapTrace", max_known=40, require_repro=False):
     """Validate the whole trace with TLC. Large traces are cut at group boundaries into chunks that separate TLC processes
     validate concurrently (a record only refers to later records of its own group)."""
     import threading
